@@ -423,6 +423,34 @@ func (g *G) solveOne(o *Obligation, file string, timeoutMs int, thorough bool) {
 		}
 		stopRace()
 		if !definite(r.res) {
+			// Second round before an obligation is reported as undecided: a
+			// timeout or "unknown" is not a refutation (DESIGN 5.2), and
+			// borderline queries are sensitive to machine load and to the
+			// solver's random choices. Three differently seeded z3-new
+			// processes with three times the budget; the first definite answer
+			// wins. A real violation answers "sat" (above) or stays undecided
+			// here as well and is then reported.
+			seeds := []string{"1", "7", "23"}
+			ch2 := make(chan solveOut, len(seeds))
+			rctx2, stop2 := context.WithCancel(context.Background())
+			for _, sd := range seeds {
+				sd := sd
+				sp := solverSpec{"z3-new(seed " + sd + ")", func(f string, t int) []string {
+					return []string{"z3-new", "smt.mbqi=false", "smt.arith.solver=2", "smt.random_seed=" + sd, "sat.random_seed=" + sd, fmt.Sprintf("-t:%d", t), f}
+				}}
+				go func(sp solverSpec) { ch2 <- runSolverCtx(rctx2, sp, file, 3*timeoutMs) }(sp)
+			}
+			for range seeds {
+				x := <-ch2
+				outs = append(outs, x)
+				if definite(x.res) {
+					r = x
+					break
+				}
+			}
+			stop2()
+		}
+		if !definite(r.res) {
 			// keep the most informative
 			r = outs[0]
 			for _, x := range outs {
